@@ -232,6 +232,8 @@ struct Norm<'a> {
     keep_async: bool,
     yieldctx: Option<String>,
     opt_map: bool,
+    dropnote: Option<String>,
+    selfty: Option<String>,
 }
 
 impl<'a> Norm<'a> {
@@ -522,6 +524,32 @@ impl<'a> Norm<'a> {
                 }
             }
         }
+        // N7c: tokio::time::timeout(D, S.next())  ==>  S.next_timeout(D)   (the adapter may return Elapsed at any time)
+        if let Expr::Call(c) = e {
+            let f = c.func.to_token_stream().to_string().replace(' ', "");
+            if f.ends_with("time::timeout") && c.args.len() == 2 {
+                if let Expr::MethodCall(nx) = &c.args[1] {
+                    if nx.method == "next" && nx.args.is_empty() {
+                        let d = &c.args[0];
+                        let sr = &nx.receiver;
+                        *e = parse_quote!(#sr.next_timeout(#d));
+                        self.stats.bump("N7.timeout_next");
+                        return;
+                    }
+                }
+            }
+            // N8: inside a stream body `drop(X)` of the listed variable is also recorded in the sink's ghost log
+            if f == "drop" && c.args.len() == 1 {
+                if let Some(dn) = &self.dropnote {
+                    if c.args[0].to_token_stream().to_string() == *dn {
+                        let a = &c.args[0];
+                        *e = parse_quote!(__sink.note_drop(#a));
+                        self.stats.bump("N8.drop_noted");
+                        return;
+                    }
+                }
+            }
+        }
         // Duration::from_secs(X) ==> v_duration_from_secs(X)
         if let Expr::Call(c) = e {
             let f = c.func.to_token_stream().to_string().replace(' ', "");
@@ -553,6 +581,13 @@ impl<'a> VisitMut for Norm<'a> {
             // stray `;` left by macro expansion
             if let Stmt::Expr(Expr::Verbatim(ts), _) = &s {
                 if ts.is_empty() {
+                    continue;
+                }
+            }
+            // tokio::pin!(x): pinning has no effect on sequential semantics
+            if let Stmt::Macro(sm) = &s {
+                if path_last(&sm.mac.path) == "pin" {
+                    self.stats.bump("N7.pin_removed");
                     continue;
                 }
             }
@@ -649,7 +684,11 @@ impl<'a> VisitMut for Norm<'a> {
                 Some(v) => (**v).clone(),
                 None => parse_quote!(()),
             };
-            *e = parse_quote!(__sink.emit(#val, Ghost(#ctx.stamp())));
+            if ctx == "none" {
+                *e = parse_quote!(__sink.emit(#val));
+            } else {
+                *e = parse_quote!(__sink.emit(#val, Ghost(#ctx.stamp())));
+            }
             self.stats.bump("N8.yield");
             return;
         }
@@ -676,6 +715,19 @@ impl<'a> VisitMut for Norm<'a> {
         }
         self.n6(e);
         self.n9(e);
+    }
+
+    fn visit_path_mut(&mut self, p: &mut syn::Path) {
+        // trait-method body verified as a free generic function: `Self` is the type parameter named by `selfty`
+        if let Some(q) = &self.selfty {
+            for seg in p.segments.iter_mut() {
+                if seg.ident == "Self" {
+                    seg.ident = ident(q);
+                    self.stats.bump("N15.self_as_type_param");
+                }
+            }
+        }
+        visit_mut::visit_path_mut(self, p);
     }
 
     fn visit_expr_closure_mut(&mut self, c: &mut syn::ExprClosure) {
@@ -725,7 +777,7 @@ impl<'a> VisitMut for Norm<'a> {
 /// Returns the number of loops found (pre-order numbering).
 pub fn normalise(block: &mut syn::Block, opts: &BTreeMap<String, String>, stats: &mut Stats, desc: &str) -> usize {
     let deref_idents = opts.get("n3").map(|s| s.split(',').map(|x| x.to_string()).collect()).unwrap_or_default();
-    let mut n = Norm { stats, desc, loops: 0, tmp: 0, closure_args: 0, deref_idents, keep_async: false, yieldctx: opts.get("yieldctx").cloned(), opt_map: opts.contains_key("optmap") };
+    let mut n = Norm { stats, desc, loops: 0, tmp: 0, closure_args: 0, deref_idents, keep_async: false, yieldctx: opts.get("yieldctx").cloned(), opt_map: opts.contains_key("optmap"), dropnote: opts.get("dropnote").cloned(), selfty: opts.get("selfty").cloned() };
     n.visit_block_mut(block);
     n.loops
 }
